@@ -192,7 +192,12 @@ impl ast::Stanza {
         let node = mat
             .nodes_for_capture_index(self.full_match_file_capture_index as u32)
             .next()
-            .expect("missing capture for full match");
+            .ok_or_else(|| {
+                ExecutionError::UndefinedCapture(format!(
+                    "for full match of stanza at {}",
+                    self.range.start
+                ))
+            })?;
         debug!("match {:?} at {}", node, self.range.start);
         trace!("{{");
         for statement in &self.statements {
